@@ -780,6 +780,48 @@ fn process_world(ctx: &Ctx, scn: &Scn, pp: &ProcPart, ex: &mut Exec, fp: &mut Fn
         Ok(e) => e,
         Err(e) => return Some(Violation::new("json_readback", "deserialize", format!("{}: out.json cannot be read back: {}", what, e))),
     };
+    // the document records the data the result was computed from: every declared consumption, production and output
+    // line (tags, id, comment, values) and every declared metadata item must be in it as declared
+    {
+        use crate::props::c05::{key_of_comp, key_of_line, Key};
+        let mut have: BTreeMap<Key, i64> = BTreeMap::new();
+        for c in &ep.components.data {
+            if let Some(k) = key_of_comp(c) {
+                *have.entry(k).or_default() += 1;
+            }
+        }
+        for l in &scn.b.lines {
+            if let Some(k) = key_of_line(l) {
+                let n = have.entry(k.clone()).or_default();
+                *n -= 1;
+                if *n < 0 {
+                    return Some(Violation::new(
+                        "json_content",
+                        "component",
+                        format!("{}: the declared line {} {} [{}] # {:?} is not in the components of out.json as declared", what, k.1, k.0, k.2, k.3),
+                    ));
+                }
+            }
+        }
+        for (key, value) in &scn.b.meta {
+            let canon = match key.as_str() {
+                "Area_ref" => "CTE_AREAREF",
+                "kexp" => "CTE_KEXP",
+                "Localizacion" => "CTE_LOCALIZACION",
+                k => k,
+            };
+            if ["CTE_AREAREF", "CTE_KEXP", "CTE_RED1", "CTE_RED2", "CTE_LOCALIZACION"].contains(&canon) {
+                continue; // the program records the values it used under these keys, in its own spelling
+            }
+            if !ep.components.meta.iter().any(|m| m.key == canon && m.value.trim() == value.trim()) {
+                return Some(Violation::new(
+                    "json_content",
+                    "metadata",
+                    format!("{}: the declared metadata item {:?}: {:?} is not in out.json as declared (found {:?})", what, key, value, ep.components.meta.iter().filter(|m| m.key == canon).map(|m| m.value.clone()).collect::<Vec<_>>()),
+                ));
+            }
+        }
+    }
     // the JSON rounds RenNrenCo2 to 3 decimals: the other two renderings must agree with it within one unit
     // of their last digit
     let expected = expected_plain(&ep);
